@@ -369,6 +369,7 @@ func (sd *blsSide) idKey(key string, sigPt, keyPt kyber.Point) string {
 	}
 	return key
 }
+
 const keyBdnOwn = "bdn.NewMask/own-key-mask-has-no-coefficients"
 
 // recoverCase runs Recover on the list, evaluates the property predicate and queues the model line.
@@ -551,7 +552,7 @@ func c09Tbls(c *kc.Ctx, sd *blsSide, rng *kc.Rng, b *blsBatch) {
 	}
 	if !mock {
 		// real suites: a sample of the configurations per run (the mock suite runs all of them)
-		keep := c.N(4, 12)
+		keep := c.N(4, 20)
 		for i := len(cfgs) - 1; i > 0; i-- {
 			j := rng.Intn(i + 1)
 			cfgs[i], cfgs[j] = cfgs[j], cfgs[i]
@@ -609,7 +610,7 @@ func c09Tbls(c *kc.Ctx, sd *blsSide, rng *kc.Rng, b *blsBatch) {
 				}
 			}
 		} else {
-			cnt := c.N(6, 30)
+			cnt := c.N(6, 40)
 			if mock {
 				cnt = c.N(40, 400)
 			}
@@ -630,7 +631,7 @@ func c09Tbls(c *kc.Ctx, sd *blsSide, rng *kc.Rng, b *blsBatch) {
 			s.recoverCase(c, b, "subset-order", list)
 		}
 		// B: valid partials mixed with invalid / duplicate / truncated / wrong-index / garbage entries
-		nMix := c.N(8, 40)
+		nMix := c.N(10, 60)
 		if mock {
 			nMix = c.N(60, 600)
 		}
@@ -721,6 +722,7 @@ func runC09(c *kc.Ctx) {
 	if emitMode {
 		return
 	}
+	defer blsPinDriver(c)()
 	replayKey := blsReplay(c)
 	defer func() { blsReplayReport(c, replayKey) }()
 	envs := blsEnvs(c.Rng)
@@ -728,7 +730,7 @@ func runC09(c *kc.Ctx) {
 	b := &blsBatch{c: c}
 	for _, sd := range sides {
 		rng := c.Rng.Fork(sd.name)
-		iters := c.N(4, 40)
+		iters := c.N(6, 120)
 		if sd.env.mock != nil {
 			iters = c.N(60, 1500)
 		}
